@@ -150,14 +150,19 @@ class H2Peer:
             elif isinstance(ev, h2.events.ConnectionTerminated):
                 self.goaway = (int(ev.error_code), ev.last_stream_id)
 
-    def send_message(self, sid, block, chunks, trailers, rst=None):
-        """Returns False if h2 refused to send (stream gone)."""
+    def send_message(self, sid, block, chunks, trailers, rst=None, pads=None):
+        """Returns False if h2 refused to send (stream gone).
+        pads: optional per-chunk pad lengths (None = DATA frame without the PADDED flag, 0..255 = PADDED)."""
         try:
             end = not chunks and not trailers
             self.conn.send_headers(sid, hdrs(block), end_stream=end)
             for i, c in enumerate(chunks):
                 last = i == len(chunks) - 1 and not trailers
-                self.conn.send_data(sid, B(c), end_stream=last)
+                pad = pads[i] if pads and i < len(pads) else None
+                if pad is None:
+                    self.conn.send_data(sid, B(c), end_stream=last)
+                else:
+                    self.conn.send_data(sid, B(c), end_stream=last, pad_length=int(pad))
             if trailers:
                 self.conn.send_headers(sid, hdrs(trailers), end_stream=True)
             return True
